@@ -124,6 +124,9 @@ impl Expression {
             Self::LongLiteral(n) => {
                 if n <= MIN_LONG {
                     Self::DoubleLiteral(-n as f64)
+                } else if -n == MIN_INTEGER as i64 {
+                    // 32768 is a long, -32768 is an integer
+                    Self::IntegerLiteral(MIN_INTEGER)
                 } else {
                     Self::LongLiteral(-n)
                 }
